@@ -1,5 +1,5 @@
 (* C62: proofs about the keypool model (model/KeyPool.v). *)
-From Coq Require Import ZArith List Bool Lia.
+From Coq Require Import ZArith List Bool Lia FinFun.
 From BV Require Import lib.Ints model.KeyPool.
 Import ListNotations.
 Open Scope Z_scope.
@@ -69,47 +69,45 @@ Proof. unfold kwf; cbn; intros; lia. Qed.
 Lemma get_new_props size k o k' r o' :
   get_new size k o = (k', r, o') ->
   mono k k' /\
-  (kwf k -> kwf k' /\ r <> GN_assert) /\
+  (kwf k -> kwf k' /\ r <> GN_assert /\ r <> GN_out) /\
   match r with
-  | GN_addr i w => i = k_next k /\ k_next k' = i + 1 /\ (w = true -> k_pnext k' = i + 1)
+  | GN_addr i m => i = k_next k /\ k_next k' = i + 1 /\ k_pnext k' = i + 1 /\ m = (i <=? k_maxc k')
   | _ => True
   end.
 Proof.
-  unfold get_new. intros H.
+  unfold get_new, get_new_gen. intros H.
   destruct (topup size 0 k o) as [[k1 r1] o1] eqn:T1.
   pose proof (topup_props _ _ _ _ _ _ _ T1) as (N1 & P1 & W1 & _).
   assert (M1 : mono k k1) by (unfold mono; destruct P1; lia).
   destruct (gn_of_tu r1) eqn:G1.
   - inversion H; subst; clear H. split; [exact M1|]. split.
-    + intros Hk. destruct (W1 Hk) as [Hk1 Hna]. split; [exact Hk1|]. destruct r1; cbn in G1; inversion G1; subst; congruence.
+    + intros Hk. destruct (W1 Hk) as [Hk1 Hna]. split; [exact Hk1|]. destruct r1; cbn in G1; inversion G1; subst; split; congruence.
     + destruct r1; cbn in G1; inversion G1; subst; exact I.
   - destruct (k_rend k1 <=? k_maxc k1) eqn:Hbr.
     + destruct (topup size 1 k1 o1) as [[k2 r2] o2] eqn:T2.
       pose proof (topup_props _ _ _ _ _ _ _ T2) as (N2 & P2 & W2 & _).
       assert (M2 : mono k k2) by (apply (mono_trans _ k1); [exact M1|unfold mono; destruct P2; lia]).
-      assert (W12 : kwf k -> kwf k2 /\ r2 <> TU_assert) by (intros Hk; apply W2; apply W1; exact Hk).
+      assert (W12 : kwf k -> False).
+      { intros Hk. destruct (W1 Hk) as [Hk1 _]. unfold kwf in Hk1. b2p. lia. }
       destruct r2.
-      * (* TU_true *)
-        destruct (INT32_MAX <=? k_next k2) eqn:Hmx.
-        { inversion H; subst; clear H. split; [exact M2|]. split; [|exact I]. intros Hk; split; [apply W12; exact Hk|congruence]. }
-        destruct (pop o2) as [w o3] eqn:Hp. inversion H; subst; clear H. b2p.
-        split.
-        { destruct M2 as [Ma Mb]. unfold mono; cbn. split; [lia|]. destruct w; [right; lia|]. destruct Mb; [left; auto|right; lia]. }
-        split.
-        { intros Hk. destruct (W12 Hk) as [Hk2 _]. split; [|congruence]. unfold kwf in *; cbn. destruct w; lia. }
-        cbn. split; [lia|]. split; [lia|]. intros ->. reflexivity.
-      * inversion H; subst; clear H. split; [exact M2|]. split; [|exact I]. intros Hk; split; [apply W12; exact Hk|congruence].
-      * inversion H; subst; clear H. split; [exact M2|]. split; [|exact I]. intros Hk; split; [apply W12; exact Hk|congruence].
-      * inversion H; subst; clear H. split; [exact M2|]. split; [|exact I]. intros Hk. destruct (W12 Hk) as [_ Hna]. congruence.
-      * inversion H; subst; clear H. split; [exact M2|]. split; [|exact I]. intros Hk; split; [apply W12; exact Hk|congruence].
+      * destruct (INT32_MAX <=? k_next k2) eqn:Hmx.
+        { inversion H; subst; clear H. split; [exact M2|]. split; [|exact I]. intros Hk; destruct (W12 Hk). }
+        destruct (pop o2) as [w o3] eqn:Hp. destruct w; inversion H; subst; clear H; b2p.
+        { split; [destruct M2 as [Ma Mb]; unfold mono; cbn; split; [lia|right; lia]|].
+          split; [intros Hk; destruct (W12 Hk)|]. cbn. repeat split; lia. }
+        { split; [exact M2|]. split; [|exact I]. intros Hk; destruct (W12 Hk). }
+      * inversion H; subst; clear H. split; [exact M2|]. split; [|exact I]. intros Hk; destruct (W12 Hk).
+      * inversion H; subst; clear H. split; [exact M2|]. split; [|exact I]. intros Hk; destruct (W12 Hk).
+      * inversion H; subst; clear H. split; [exact M2|]. split; [|exact I]. intros Hk; destruct (W12 Hk).
+      * inversion H; subst; clear H. split; [exact M2|]. split; [|exact I]. intros Hk; destruct (W12 Hk).
     + destruct (INT32_MAX <=? k_next k1) eqn:Hmx.
-      { inversion H; subst; clear H. split; [exact M1|]. split; [|exact I]. intros Hk; split; [apply W1; exact Hk|congruence]. }
-      destruct (pop o1) as [w o3] eqn:Hp. inversion H; subst; clear H. b2p.
-      split.
-      { destruct M1 as [Ma Mb]. unfold mono; cbn. split; [lia|]. destruct w; [right; lia|]. destruct Mb; [left; auto|right; lia]. }
-      split.
-      { intros Hk. destruct (W1 Hk) as [Hk2 _]. split; [|congruence]. unfold kwf in *; cbn. destruct w; lia. }
-      cbn. split; [lia|]. split; [lia|]. intros ->. reflexivity.
+      { inversion H; subst; clear H. split; [exact M1|]. split; [|exact I]. intros Hk; split; [apply W1; exact Hk|split; congruence]. }
+      destruct (pop o1) as [w o3] eqn:Hp. destruct w; inversion H; subst; clear H; b2p.
+      { split; [destruct M1 as [Ma Mb]; unfold mono; cbn; split; [lia|right; lia]|].
+        split.
+        { intros Hk. destruct (W1 Hk) as [Hk2 _]. split; [|split; congruence]. unfold kwf in *; cbn. lia. }
+        cbn. repeat split; lia. }
+      { split; [exact M1|]. split; [|exact I]. intros Hk; split; [apply W1; exact Hk|split; congruence]. }
 Qed.
 
 Lemma return_dest_props k idx o k' o' :
@@ -214,9 +212,9 @@ Qed.
 Lemma return_all_kwf l : forall f,
   (forall s, kwf (f s)) -> (forall id s i, In (id, (s, i)) l -> 0 <= i) -> forall s, kwf (return_all f l s).
 Proof.
-  induction l as [|[id [s i]] r IH]; intros f Hf Hl; cbn; [exact Hf|].
+  induction l as [|[id [s i]] r IH]; intros f Hf Hl; cbn [return_all]; [exact Hf|].
   apply IH.
-  - destruct (return_dest (f s) i ([], 0%nat)) as [k' o'] eqn:R. cbn.
+  - destruct (return_dest (f s) i ([], 0%nat)) as [k' o'] eqn:R. cbn [fst].
     pose proof (return_dest_props _ _ _ _ _ R) as (_ & _ & W).
     apply upd_kwf; [exact Hf|]. apply W; [apply Hf|]. eapply Hl; left; reflexivity.
   - intros id0 s0 i0 Hin. eapply Hl; right; exact Hin.
@@ -224,13 +222,16 @@ Qed.
 
 Lemma step_size st o st' x : step st o = (st', x) -> w_size st' = w_size st.
 Proof.
-  destruct o; cbn; intros H;
-  repeat match goal with
-  | H : context [let '(_, _) := ?e in _] |- _ => destruct e as [[? ?] ?] eqn:?
-  | H : context [match find_res ?a ?b with _ => _ end] |- _ => destruct (find_res a b) as [[? ?]|] eqn:?
-  end; try (inversion H; subst; reflexivity).
-  - destruct p. inversion H; subst; reflexivity.
-  - destruct (return_dest (w_kp st n0) z (bits, 0%nat)). inversion H; subst; reflexivity.
+  destruct o; cbn; intros H.
+  - destruct (get_new _ _ _) as [[? ?] ?]. inversion H; reflexivity.
+  - destruct (get_new _ _ _) as [[? ?] ?]. inversion H; reflexivity.
+  - destruct (find_res _ _); [inversion H; reflexivity|]. destruct (get_new _ _ _) as [[? ?] ?]. inversion H; reflexivity.
+  - destruct (find_res _ _) as [[? ?]|]; inversion H; reflexivity.
+  - destruct (find_res _ _) as [[? ?]|]; [|inversion H; reflexivity]. destruct (return_dest _ _ _). inversion H; reflexivity.
+  - destruct (topup _ _ _ _) as [[? ?] ?]. inversion H; reflexivity.
+  - destruct (mark_used _ _ _ _) as [[? [? ?]] ?]. inversion H; reflexivity.
+  - inversion H; reflexivity.
+  - inversion H; reflexivity.
 Qed.
 
 Lemma step_wf st o st' x : wf st -> step st o = (st', x) -> wf st' /\ x <> OAssert.
@@ -238,16 +239,16 @@ Proof.
   intros [Hk Hr] H. destruct o; cbn in H.
   - (* OpNew *)
     destruct (get_new (w_size st) (w_kp st s) (bits, 0%nat)) as [[k r] orc] eqn:G. inversion H; subst; clear H.
-    pose proof (get_new_props _ _ _ _ _ _ G) as (_ & W & _). destruct (W (Hk s)) as [Wk Hna].
+    pose proof (get_new_props _ _ _ _ _ _ G) as (_ & W & _). destruct (W (Hk s)) as (Wk & Hna & _).
     split; [split; cbn; [apply upd_kwf; assumption|exact Hr]|]. destruct r; cbn; congruence.
   - destruct (get_new (w_size st) (w_kp st s) (bits, 0%nat)) as [[k r] orc] eqn:G. inversion H; subst; clear H.
-    pose proof (get_new_props _ _ _ _ _ _ G) as (_ & W & _). destruct (W (Hk s)) as [Wk Hna].
+    pose proof (get_new_props _ _ _ _ _ _ G) as (_ & W & _). destruct (W (Hk s)) as (Wk & Hna & _).
     split; [split; cbn; [apply upd_kwf; assumption|exact Hr]|]. destruct r; cbn; congruence.
   - (* OpRes *)
     destruct (find_res id (w_res st)) eqn:F.
     { inversion H; subst. split; [split; assumption|congruence]. }
     destruct (get_new (w_size st) (w_kp st s) (bits, 0%nat)) as [[k r] orc] eqn:G. inversion H; subst; clear H.
-    pose proof (get_new_props _ _ _ _ _ _ G) as (_ & W & P). destruct (W (Hk s)) as [Wk Hna].
+    pose proof (get_new_props _ _ _ _ _ _ G) as (_ & W & P). destruct (W (Hk s)) as (Wk & Hna & _).
     split; [split; cbn; [apply upd_kwf; assumption|]|destruct r; cbn; congruence].
     intros id0 s0 i0 Hin. destruct r; try (eapply Hr; exact Hin).
     destruct Hin as [Hin|Hin]; [|eapply Hr; exact Hin]. inversion Hin; subst. destruct P as [-> _]. destruct (Hk s0) as (_ & ? & _). lia.
@@ -277,3 +278,324 @@ Proof.
   - inversion H; subst; clear H. split; [|congruence]. split; cbn; [|tauto].
     intros s. apply load_slot_props. apply Hk.
 Qed.
+
+(* ---------------------------------------------------------------------------------------------- *)
+(* wallet level: the invariant that makes reloading safe (any faults, any reloads and crashes) *)
+
+(* index i of a descriptor is protected: neither this session nor a later one (which starts from the database record)
+   will issue it again *)
+Definition blw (k : kp) (i : Z) : Prop := i < k_next k /\ i < k_pnext k.
+
+Lemma blw_mono k k' i : mono k k' -> blw k i -> blw k' i.
+Proof. unfold mono, blw. intros [A B] [C D]. split; [lia|]. destruct B as [B|B]; [rewrite B; exact D|lia]. Qed.
+
+Lemma blw_upd_mono f s k' s0 i0 : mono (f s) k' -> blw (f s0) i0 -> blw (upd f s k' s0) i0.
+Proof.
+  intros M B. destruct (Nat.eq_dec s0 s) as [->|Hne]; [rewrite upd_same; eapply blw_mono; eassumption|rewrite upd_other by exact Hne; exact B].
+Qed.
+
+Lemma ret_blw k idx o k' o' i0 : return_dest k idx o = (k', o') -> blw k i0 -> i0 <> idx -> blw k' i0.
+Proof.
+  intros R [A B] Hne. pose proof (return_dest_props _ _ _ _ _ R) as (N & P & _).
+  assert (A' : i0 < k_next k') by (rewrite N; destruct (k_next k - 1 =? idx) eqn:E; b2p; lia).
+  split; [exact A'|]. destruct P as [P|P]; rewrite P; assumption.
+Qed.
+
+Record inv (st : wst) (h : list (nat * Z)) : Prop := mkInv {
+  inv_h : forall s i, In (s, i) h -> blw (w_kp st s) i;
+  inv_r : forall id s i, In (id, (s, i)) (w_res st) -> blw (w_kp st s) i /\ ~ In (s, i) h;
+  inv_rd : NoDup (map snd (w_res st));
+  inv_nd : NoDup h }.
+
+Lemma NoDup_snoc {A} (l : list A) x : NoDup l -> ~ In x l -> NoDup (l ++ [x]).
+Proof.
+  induction l as [|a r IH]; cbn; intros Hnd Hni; [constructor; [tauto|constructor]|].
+  inversion Hnd; subst. constructor.
+  - intros Hc. apply in_app_or in Hc. destruct Hc as [Hc|[Hc|[]]]; [contradiction|subst; apply Hni; left; reflexivity].
+  - apply IH; [assumption|tauto].
+Qed.
+
+Lemma issue_common st h s bits k r orc :
+  inv st h -> get_new (w_size st) (w_kp st s) (bits, 0%nat) = (k, r, orc) ->
+  (forall s0 i0, In (s0, i0) h -> blw (upd (w_kp st) s k s0) i0) /\
+  (forall id s0 i0, In (id, (s0, i0)) (w_res st) -> blw (upd (w_kp st) s k s0) i0) /\
+  match r with
+  | GN_addr i m => blw k i /\ ~ In (s, i) h /\ ~ In (s, i) (map snd (w_res st))
+  | _ => True
+  end.
+Proof.
+  intros I G. pose proof (get_new_props _ _ _ _ _ _ G) as (M & _ & P).
+  split; [intros s0 i0 Hin; apply blw_upd_mono; [exact M|eapply inv_h; eassumption]|].
+  split; [intros id s0 i0 Hin; apply blw_upd_mono; [exact M|eapply inv_r; eassumption]|].
+  destruct r; try exact I0; try exact Logic.I.
+  destruct P as (Hi & Hn & Hp & _). split; [unfold blw; lia|]. split.
+  - intros Hc. destruct (inv_h _ _ I _ _ Hc) as [A _]. lia.
+  - intros Hc. apply in_map_iff in Hc. destruct Hc as [[id [s0 i0]] [E Hin]]. cbn in E. inversion E; subst.
+    destruct (inv_r _ _ I _ _ _ Hin) as [[A _] _]. lia.
+Qed.
+
+Lemma return_all_blw l : forall f (others : list (nat * Z)),
+  (forall s i, In (s, i) others -> blw (f s) i /\ ~ In (s, i) (map snd l)) ->
+  NoDup (map snd l) ->
+  forall s i, In (s, i) others -> blw (return_all f l s) i.
+Proof.
+  induction l as [|[id [s1 i1]] r IH]; intros f others Ho Hnd s i Hin; cbn [return_all]; [apply Ho; exact Hin|].
+  inversion Hnd as [|a b Hni Hnd']; subst.
+  destruct (return_dest (f s1) i1 ([], 0%nat)) as [k' o'] eqn:R. cbn [fst].
+  apply (IH _ others); [|exact Hnd'|exact Hin].
+  intros s0 i0 Hin0. destruct (Ho _ _ Hin0) as [B Hn]. split.
+  - destruct (Nat.eq_dec s0 s1) as [->|Hne]; [rewrite upd_same|rewrite upd_other by exact Hne; exact B].
+    eapply ret_blw; [exact R|exact B|]. intros ->. apply Hn. left; reflexivity.
+  - intros Hc. apply Hn. right; exact Hc.
+Qed.
+
+Lemma step_inv st h o st' x : inv st h -> step st o = (st', x) -> inv st' (h ++ handed_of x).
+Proof.
+  intros I H. destruct o; cbn [step] in H.
+  - (* OpNew *)
+    destruct (get_new (w_size st) (w_kp st s) (bits, 0%nat)) as [[k r] orc] eqn:G. inversion H; subst; clear H.
+    pose proof (issue_common _ _ _ _ _ _ _ I G) as (A & B & C).
+    destruct r; cbn [gn_out handed_of]; try (rewrite app_nil_r; constructor; cbn [w_kp w_res];
+      [exact A|intros id s0 i0 Hin; split; [eapply B; exact Hin|eapply inv_r; eassumption]|eapply inv_rd; eassumption|eapply inv_nd; eassumption]).
+    destruct C as (C1 & C2 & C3). constructor; cbn [w_kp w_res].
+    + intros s0 i0 Hin. apply in_app_or in Hin. destruct Hin as [Hin|[Hin|[]]]; [apply A; exact Hin|]. inversion Hin; subst. rewrite upd_same. exact C1.
+    + intros id s0 i0 Hin. split; [eapply B; exact Hin|]. intros Hc. apply in_app_or in Hc. destruct Hc as [Hc|[Hc|[]]].
+      * eapply inv_r; eassumption.
+      * inversion Hc; subst. apply C3. apply in_map_iff. exists (id, (s0, i0)). split; [reflexivity|exact Hin].
+    + eapply inv_rd; eassumption.
+    + apply NoDup_snoc; [eapply inv_nd; eassumption|exact C2].
+  - (* OpChg *)
+    destruct (get_new (w_size st) (w_kp st s) (bits, 0%nat)) as [[k r] orc] eqn:G. inversion H; subst; clear H.
+    pose proof (issue_common _ _ _ _ _ _ _ I G) as (A & B & C).
+    destruct r; cbn [gn_out handed_of]; try (rewrite app_nil_r; constructor; cbn [w_kp w_res];
+      [exact A|intros id s0 i0 Hin; split; [eapply B; exact Hin|eapply inv_r; eassumption]|eapply inv_rd; eassumption|eapply inv_nd; eassumption]).
+    destruct C as (C1 & C2 & C3). constructor; cbn [w_kp w_res].
+    + intros s0 i0 Hin. apply in_app_or in Hin. destruct Hin as [Hin|[Hin|[]]]; [apply A; exact Hin|]. inversion Hin; subst. rewrite upd_same. exact C1.
+    + intros id s0 i0 Hin. split; [eapply B; exact Hin|]. intros Hc. apply in_app_or in Hc. destruct Hc as [Hc|[Hc|[]]].
+      * eapply inv_r; eassumption.
+      * inversion Hc; subst. apply C3. apply in_map_iff. exists (id, (s0, i0)). split; [reflexivity|exact Hin].
+    + eapply inv_rd; eassumption.
+    + apply NoDup_snoc; [eapply inv_nd; eassumption|exact C2].
+  - (* OpRes *)
+    destruct (find_res id (w_res st)) eqn:F.
+    { inversion H; subst. cbn [handed_of]. rewrite app_nil_r. exact I. }
+    destruct (get_new (w_size st) (w_kp st s) (bits, 0%nat)) as [[k r] orc] eqn:G. inversion H; subst; clear H.
+    pose proof (issue_common _ _ _ _ _ _ _ I G) as (A & B & C).
+    destruct r; cbn [gn_out handed_of]; rewrite app_nil_r; try (constructor; cbn [w_kp w_res];
+      [exact A|intros id0 s0 i0 Hin; split; [eapply B; exact Hin|eapply inv_r; eassumption]|eapply inv_rd; eassumption|eapply inv_nd; eassumption]).
+    destruct C as (C1 & C2 & C3). constructor; cbn [w_kp w_res].
+    + exact A.
+    + intros id0 s0 i0 [Hin|Hin].
+      * inversion Hin; subst. rewrite upd_same. split; assumption.
+      * split; [eapply B; exact Hin|eapply inv_r; eassumption].
+    + cbn [map snd]. constructor; [exact C3|eapply inv_rd; eassumption].
+    + eapply inv_nd; eassumption.
+  - (* OpKeep *)
+    destruct (find_res id (w_res st)) as [[s i]|] eqn:F; inversion H; subst; clear H; cbn [handed_of].
+    2:{ rewrite app_nil_r. exact I. }
+    pose proof (find_res_in _ _ _ F) as Fin. destruct (inv_r _ _ I _ _ _ Fin) as [Bk Hnh].
+    destruct (remove_res_nodup _ _ _ (inv_rd _ _ I) F) as [Rnd Rni].
+    constructor; cbn [w_kp w_res].
+    + intros s0 i0 Hin. apply in_app_or in Hin. destruct Hin as [Hin|[Hin|[]]]; [eapply inv_h; eassumption|]. inversion Hin; subst. exact Bk.
+    + intros id0 s0 i0 Hin. pose proof (remove_res_in _ _ _ Hin) as Hin'. destruct (inv_r _ _ I _ _ _ Hin') as [B0 N0].
+      split; [exact B0|]. intros Hc. apply in_app_or in Hc. destruct Hc as [Hc|[Hc|[]]]; [exact (N0 Hc)|].
+      inversion Hc; subst. apply Rni. apply in_map_iff. exists (id0, (s0, i0)). split; [reflexivity|exact Hin].
+    + exact Rnd.
+    + apply NoDup_snoc; [eapply inv_nd; eassumption|exact Hnh].
+  - (* OpRet *)
+    destruct (find_res id (w_res st)) as [[s i]|] eqn:F.
+    2:{ inversion H; subst. cbn [handed_of]. rewrite app_nil_r. exact I. }
+    destruct (return_dest (w_kp st s) i (bits, 0%nat)) as [k orc] eqn:R. inversion H; subst; clear H. cbn [handed_of]. rewrite app_nil_r.
+    pose proof (find_res_in _ _ _ F) as Fin. destruct (inv_r _ _ I _ _ _ Fin) as [Bk Hnh].
+    destruct (remove_res_nodup _ _ _ (inv_rd _ _ I) F) as [Rnd Rni].
+    constructor; cbn [w_kp w_res].
+    + intros s0 i0 Hin. destruct (Nat.eq_dec s0 s) as [->|Hne]; [rewrite upd_same|rewrite upd_other by exact Hne; eapply inv_h; eassumption].
+      eapply ret_blw; [exact R|eapply inv_h; eassumption|]. intros ->. exact (Hnh Hin).
+    + intros id0 s0 i0 Hin. pose proof (remove_res_in _ _ _ Hin) as Hin'. destruct (inv_r _ _ I _ _ _ Hin') as [B0 N0].
+      split; [|exact N0]. destruct (Nat.eq_dec s0 s) as [->|Hne]; [rewrite upd_same|rewrite upd_other by exact Hne; exact B0].
+      eapply ret_blw; [exact R|exact B0|]. intros ->. apply Rni. apply in_map_iff. exists (id0, (s, i)). split; [reflexivity|exact Hin].
+    + exact Rnd.
+    + eapply inv_nd; eassumption.
+  - (* OpTop *)
+    destruct (topup (w_size st) n (w_kp st s) (bits, 0%nat)) as [[k r] orc] eqn:T. inversion H; subst; clear H.
+    pose proof (topup_props _ _ _ _ _ _ _ T) as (N & P & _).
+    assert (M : mono (w_kp st s) k) by (unfold mono; destruct P; lia).
+    replace (handed_of _) with (@nil (nat * Z)) by (destruct r; reflexivity). rewrite app_nil_r.
+    constructor; cbn [w_kp w_res].
+    + intros s0 i0 Hin. apply blw_upd_mono; [exact M|eapply inv_h; eassumption].
+    + intros id0 s0 i0 Hin. destruct (inv_r _ _ I _ _ _ Hin) as [B0 N0]. split; [apply blw_upd_mono; assumption|exact N0].
+    + eapply inv_rd; eassumption.
+    + eapply inv_nd; eassumption.
+  - (* OpUsed *)
+    destruct (mark_used (w_size st) (w_kp st s) idx (bits, 0%nat)) as [[k [c r]] orc] eqn:MU. inversion H; subst; clear H.
+    pose proof (mark_used_props _ _ _ _ _ _ _ _ MU) as (M & _).
+    replace (handed_of _) with (@nil (nat * Z)) by (destruct r; reflexivity). rewrite app_nil_r.
+    constructor; cbn [w_kp w_res].
+    + intros s0 i0 Hin. apply blw_upd_mono; [exact M|eapply inv_h; eassumption].
+    + intros id0 s0 i0 Hin. destruct (inv_r _ _ I _ _ _ Hin) as [B0 N0]. split; [apply blw_upd_mono; assumption|exact N0].
+    + eapply inv_rd; eassumption.
+    + eapply inv_nd; eassumption.
+  - (* OpReload *)
+    inversion H; subst; clear H. cbn [handed_of]. rewrite app_nil_r.
+    constructor; cbn [load w_kp w_res]; [|intros ? ? ? []|constructor|eapply inv_nd; eassumption].
+    intros s i Hin. destruct (load_slot_next (w_size st) (return_all (w_kp st) (w_res st) s)) as [A B].
+    assert (Bl : blw (return_all (w_kp st) (w_res st) s) i).
+    { apply (return_all_blw _ _ h); [|eapply inv_rd; eassumption|exact Hin].
+      intros s0 i0 Hin0. split; [eapply inv_h; eassumption|]. intros Hc. apply in_map_iff in Hc. destruct Hc as [[id [s1 i1]] [E Hr]].
+      cbn in E; inversion E; subst. destruct (inv_r _ _ I _ _ _ Hr) as [_ N0]. exact (N0 Hin0). }
+    destruct Bl as [_ Bp]. unfold blw. rewrite A, B. split; exact Bp.
+  - (* OpCrash *)
+    inversion H; subst; clear H. cbn [handed_of]. rewrite app_nil_r.
+    constructor; cbn [load w_kp w_res]; [|intros ? ? ? []|constructor|eapply inv_nd; eassumption].
+    intros s i Hin. destruct (load_slot_next (w_size st) (w_kp st s)) as [A B].
+    destruct (inv_h _ _ I _ _ Hin) as [_ Bp]. unfold blw. rewrite A, B. split; exact Bp.
+Qed.
+
+(* ---------------------------------------------------------------------------------------------- *)
+(* runs *)
+
+Lemma handed_cons x xs : handed (x :: xs) = handed_of x ++ handed xs.
+Proof. reflexivity. Qed.
+
+Lemma run_inv ops : forall st h outs st', inv st h -> run st ops = (outs, st') -> inv st' (h ++ handed outs).
+Proof.
+  induction ops as [|o r IH]; intros st h outs st' I H; cbn [run] in H.
+  - inversion H; subst. cbn. rewrite app_nil_r. exact I.
+  - destruct (step st o) as [st1 x] eqn:S. destruct (run st1 r) as [xs st2] eqn:R. inversion H; subst; clear H.
+    rewrite handed_cons, app_assoc. eapply IH; [|exact R]. eapply step_inv; eassumption.
+Qed.
+
+Lemma step_no_out st o st' x : wf st -> step st o = (st', x) -> forall n, x <> OErrOut n.
+Proof.
+  intros [Hk Hr] H n. destruct o; cbn [step] in H.
+  - destruct (get_new _ _ _) as [[k r] orc] eqn:G. inversion H; subst.
+    pose proof (get_new_props _ _ _ _ _ _ G) as (_ & W & _). destruct (W (Hk s)) as (_ & _ & Hno). destruct r; cbn; congruence.
+  - destruct (get_new _ _ _) as [[k r] orc] eqn:G. inversion H; subst.
+    pose proof (get_new_props _ _ _ _ _ _ G) as (_ & W & _). destruct (W (Hk s)) as (_ & _ & Hno). destruct r; cbn; congruence.
+  - destruct (find_res _ _); [inversion H; subst; congruence|].
+    destruct (get_new _ _ _) as [[k r] orc] eqn:G. inversion H; subst.
+    pose proof (get_new_props _ _ _ _ _ _ G) as (_ & W & _). destruct (W (Hk s)) as (_ & _ & Hno). destruct r; cbn; congruence.
+  - destruct (find_res _ _) as [[? ?]|]; inversion H; subst; congruence.
+  - destruct (find_res _ _) as [[? ?]|]; [|inversion H; subst; congruence]. destruct (return_dest _ _ _). inversion H; subst; congruence.
+  - destruct (topup _ _ _ _) as [[k r] orc]. inversion H; subst. destruct r; cbn; congruence.
+  - destruct (mark_used _ _ _ _) as [[k [c r]] orc]. inversion H; subst. destruct r; cbn; congruence.
+  - inversion H; subst; congruence.
+  - inversion H; subst; congruence.
+Qed.
+
+Lemma run_wf ops : forall st outs st', wf st -> run st ops = (outs, st') ->
+  wf st' /\ ~ In OAssert outs /\ forall n, ~ In (OErrOut n) outs.
+Proof.
+  induction ops as [|o r IH]; intros st outs st' W H; cbn [run] in H.
+  - inversion H; subst. split; [exact W|]. split; [tauto|intros n []].
+  - destruct (step st o) as [st1 x] eqn:S. destruct (run st1 r) as [xs st2] eqn:R. inversion H; subst; clear H.
+    destruct (step_wf _ _ _ _ W S) as [W1 Hx]. pose proof (step_no_out _ _ _ _ W S) as Hno.
+    destruct (IH _ _ _ W1 R) as (W2 & A & B). split; [exact W2|]. split.
+    + intros [Hc|Hc]; [exact (Hx Hc)|exact (A Hc)].
+    + intros n [Hc|Hc]; [exact (Hno n Hc)|exact (B n Hc)].
+Qed.
+
+Lemma init_inv size : inv (init size) [].
+Proof. constructor; cbn; [intros ? ? []|intros ? ? ? []|constructor|constructor]. Qed.
+
+Lemma init_wf size : 1 <= size <= INT32_MAX -> wf (init size).
+Proof. intros H. split; cbn; [|intros ? ? ? []]. intros _. unfold kwf, init_kp; cbn. unfold INT32_MAX in *. lia. Qed.
+
+(* main results *)
+Lemma no_repeat size ops : NoDup (handed (fst (run (init size) ops))).
+Proof.
+  destruct (run (init size) ops) as [outs st] eqn:R. cbn [fst].
+  pose proof (run_inv _ _ _ _ _ (init_inv size) R) as I. cbn in I. eapply inv_nd; exact I.
+Qed.
+
+Lemma handed_protected size ops outs st :
+  run (init size) ops = (outs, st) ->
+  forall s i, In (s, i) (handed outs) -> i < k_next (w_kp st s) /\ i < k_pnext (w_kp st s).
+Proof.
+  intros R s i Hin. pose proof (run_inv _ _ _ _ _ (init_inv size) R) as I. cbn in I. exact (inv_h _ _ I _ _ Hin).
+Qed.
+
+Lemma run_well_formed size ops outs st :
+  1 <= size <= INT32_MAX -> run (init size) ops = (outs, st) ->
+  ~ In OAssert outs /\ (forall n, ~ In (OErrOut n) outs) /\
+  forall s, let k := w_kp st s in
+    k_maxc k = k_rend k - 1 /\ 0 <= k_next k <= INT32_MAX /\ 0 <= k_rend k <= INT32_MAX /\
+    0 <= k_pnext k <= INT32_MAX /\ 0 <= k_prend k <= INT32_MAX.
+Proof.
+  intros Hs R. destruct (run_wf _ _ _ _ (init_wf _ Hs) R) as ([W _] & A & B). split; [exact A|]. split; [exact B|]. intros s. exact (W s).
+Qed.
+
+(* addresses *)
+Section Addresses.
+  Variable A : Type.
+  Variable addr : nat -> Z -> A.
+  Hypothesis addr_injective : forall s i s' i', addr s i = addr s' i' -> s = s' /\ i = i'.
+
+  Lemma no_repeat_addresses size ops :
+    NoDup (map (fun p => addr (fst p) (snd p)) (handed (fst (run (init size) ops)))).
+  Proof.
+    apply FinFun.Injective_map_NoDup; [|apply no_repeat].
+    intros [s i] [s' i'] E. cbn in E. destruct (addr_injective _ _ _ _ E); subst; reflexivity.
+  Qed.
+End Addresses.
+
+(* the executable predicate used on the implementation's output *)
+Lemma pair_eqb_eq a b : pair_eqb a b = true <-> a = b.
+Proof.
+  destruct a as [s i], b as [s' i']; unfold pair_eqb; cbn. rewrite andb_true_iff, Nat.eqb_eq, Z.eqb_eq.
+  split; [intros [-> ->]; reflexivity|intros E; inversion E; auto].
+Qed.
+
+Lemma memb_in a l : memb a l = true <-> In a l.
+Proof.
+  induction l as [|b r IH]; cbn; [split; [discriminate|tauto]|].
+  rewrite orb_true_iff, pair_eqb_eq, IH. split; intros [H|H]; auto.
+Qed.
+
+Lemma holds_distinct_sound l : holds_distinct l = true <-> NoDup l.
+Proof.
+  induction l as [|a r IH]; cbn; [split; [constructor|reflexivity]|].
+  rewrite andb_true_iff, negb_true_iff, IH. split.
+  - intros [H1 H2]. constructor; [|exact H2]. intros Hc. apply memb_in in Hc. congruence.
+  - intros H. inversion H; subst. split; [|assumption]. destruct (memb a r) eqn:E; [apply memb_in in E; contradiction|reflexivity].
+Qed.
+
+(* the handed-out address is one the wallet watches, when no database call of the request fails *)
+Lemma topup_true_covers size n k o k' o' :
+  topup size n k o = (k', TU_true, o') -> 0 < (if 0 <? n then n else size) -> k_next k < k_rend k'.
+Proof.
+  unfold topup, pop. intros H Hp. destruct o as [bits c]; cbn [fst snd] in H.
+  destruct bits as [|b0 [|b1 [|b2 bits]]]; cbn [fst snd] in H; brk; b2p; try discriminate; cbn; lia.
+Qed.
+
+Lemma fault_free_watched size k c k' i m o' :
+  1 <= size -> kwf k -> get_new size k ([], c) = (k', GN_addr i m, o') -> m = true.
+Proof.
+  intros Hs Hk G. unfold get_new, get_new_gen in G.
+  destruct (topup size 0 k ([], c)) as [[k1 r1] o1] eqn:T1.
+  pose proof (topup_props _ _ _ _ _ _ _ T1) as (N1 & P1 & W1 & _ & F1). destruct (W1 Hk) as [Hk1 _]. destruct (F1 eq_refl) as [F1a F1b].
+  assert (Ho1 : fst o1 = []).
+  { unfold topup, pop in T1. cbn [fst snd] in T1. brk; reflexivity. }
+  destruct r1; cbn [gn_of_tu] in G; try congruence; try discriminate.
+  assert (Hcov : k_next k < k_rend k1) by (eapply topup_true_covers; [exact T1|cbn; lia]).
+  destruct (k_rend k1 <=? k_maxc k1) eqn:Hbr; [unfold kwf in Hk1; b2p; lia|].
+  destruct (INT32_MAX <=? k_next k1); [discriminate|].
+  destruct (pop o1) as [w o3] eqn:Hp. unfold pop in Hp. rewrite Ho1 in Hp. inversion Hp; subst.
+  inversion G; subst. unfold kwf in Hk1. apply Z.leb_le. lia.
+Qed.
+
+(* the code before the fix (write result ignored), and the fixed code, on the witness
+   new; new with the final WriteDescriptor failing; restart; new *)
+Lemma unchecked_write_witness :
+  let '(k1, _, _) := get_new_gen false 3 (init_kp 3) ([], 0%nat) in
+  let '(k2, r2, _) := get_new_gen false 3 k1 ([true; true; true; false], 0%nat) in
+  let '(_, r3, _) := get_new_gen false 3 (load_slot 3 k2) ([], 0%nat) in
+  r2 = GN_addr 1 true /\ r3 = GN_addr 1 true.
+Proof. vm_compute. split; reflexivity. Qed.
+
+Lemma checked_write_witness :
+  let '(k1, _, _) := get_new_gen true 3 (init_kp 3) ([], 0%nat) in
+  let '(k2, r2, _) := get_new_gen true 3 k1 ([true; true; true; false], 0%nat) in
+  let '(_, r3, _) := get_new_gen true 3 (load_slot 3 k2) ([], 0%nat) in
+  r2 = GN_werr /\ r3 = GN_addr 1 true.
+Proof. vm_compute. split; reflexivity. Qed.
